@@ -92,12 +92,27 @@ def payloads(rng, tier):
     # the estimate is exactly 1.0 twice in a row and the tolerance test stops the repeat), on every run
     yield "capacity", {"rows": F12_ROWS, "repeats": 3, "seed": 1472, "tol": -10, "maxit": 500, "kind": "subset"}
     yield "capacity", {"rows": [[-1] * 4] * 4, "repeats": 1, "seed": 1, "tol": -10, "maxit": 500, "kind": "arcless"}
+    # every order-1 and order-2 graph that appends only the nucleotides of a fixed sub-alphabet (d-regular on its live vertices:
+    # the single start must report exactly log2 d, the random start log2 d within 1e-4)
+    for k in (1, 2):
+        for bits in range(1, 16):
+            cols = [j for j in range(4) if bits >> j & 1]
+            rows = [[(4 * v + j) % 4 ** k if j in cols else -1 for j in range(4)] for v in range(4 ** k)]
+            yield "capacity", {"rows": rows, "repeats": 1 if (bits + k) % 2 else 2, "seed": bits, "tol": -10, "maxit": 500,
+                               "kind": "subalphabet"}
     yield "capacity", {"rows": [[-1] * 4] * 16, "repeats": 3, "seed": 1, "tol": -10, "maxit": 500, "kind": "arcless"}
     for _ in range(n):
         k = rng.randint(1, kmax)
-        kind = rng.choice(["subset", "subset", "sparse", "coding", "coding", "regular", "complete", "fullrows", "induced", "regdead", "regdead"])
+        kind = rng.choice(["subset", "subset", "sparse", "subalphabet", "coding", "coding", "regular", "complete", "fullrows", "induced", "regdead", "regdead"])
         if kind == "subset":
             rows = gen.arc_subset(rng, k, keep=rng.choice([0.3, 0.5, 0.7, 0.9]))
+        elif kind == "subalphabet":
+            # only some nucleotides are ever appended (whole columns of the accessor are empty); often every live vertex keeps
+            # all the allowed arcs, which makes the graph regular
+            cols = rng.sample(range(4), rng.randint(1, 3))
+            keep = rng.choice([1.0, 1.0, 0.8, 0.5])
+            n4 = 4 ** k
+            rows = [[(4 * v + j) % n4 if j in cols and rng.random() < keep else -1 for j in range(4)] for v in range(n4)]
         elif kind == "sparse":
             # few arcs: a small cyclic part with chains of single-successor vertices leading into / out of it
             k = max(k, 2)
@@ -243,19 +258,20 @@ def build(stream, p):
                 # the deterministic run ended through the tolerance test (not the iteration cap): the stopping rule fired on
                 # two (nearly) coinciding consecutive estimates before the vector had converged
                 early = repeats == 1 and 2 <= len(rec0) <= maxit
-                # a random start whose repeat ended through the tolerance test on two IDENTICAL consecutive estimates that are
-                # themselves outside the bracket: the estimate stagnated before the vector had converged
+                # a random start whose repeat ended through the tolerance test (fewer recorded estimates than the iteration cap
+                # allows, so its last two estimates coincide to within the tolerance) on an estimate that is itself outside the
+                # bracket: the estimate stagnated before the vector had converged
                 stalled = 0
                 if repeats > 1:
                     for one in raw[1]:
                         one = [float(x) for x in one]
-                        if 2 <= len(one) <= maxit and one[-1] == one[-2] \
+                        if 2 <= len(one) <= maxit \
                                 and not (cert["lo"] - 1e-4 - 1e-9 <= one[-1] <= cert["hi"] + 1e-4 + 1e-9):
                             stalled += 1
                 return ("capacity %r is not within 1e-4 of the certified log2 spectral radius bracket [%r, %r] (repeats=%d%s%s)"
                         % (cap, cert["lo"], cert["hi"], repeats,
                            "; single start stopped by the tolerance test after %d estimates" % len(rec0) if early else "",
-                           "; random start: %d of %d repeats stopped by the tolerance test on two identical consecutive estimates"
+                           "; random start: %d of %d repeats stopped by the tolerance test on coinciding consecutive estimates outside the bracket"
                            % (stalled, repeats) if stalled else ""))
         return None
     branching = any(sum(1 for x in r if x >= 0) >= 2 for r in rows)
@@ -266,7 +282,7 @@ def build(stream, p):
 def known_match(finding, stream, payload, why):
     if finding["id"] == "F12":
         return (payload["repeats"] >= 2 and "certified log2 spectral radius bracket" in why
-                and "repeats stopped by the tolerance test on two identical consecutive estimates" in why)
+                and "repeats stopped by the tolerance test on coinciding consecutive estimates outside the bracket" in why)
     return (finding["id"] == "F9" and payload["repeats"] == 1 and "certified log2 spectral radius bracket" in why
             and "single start stopped by the tolerance test" in why)
 
